@@ -90,6 +90,12 @@ Out(st, q) ==
     [] x = "composite inline"     -> IF q = "R.dbml" THEN "DBMLError" ELSE "unspecified"
     [] x = "table detached"       -> IF q \in {"T.get_refs", "a.get_refs"} THEN "UnknownDatabaseError" ELSE "unspecified"
 
+\* Flavours: optional settings of the elements that have NO bearing on consistency.  Out takes no flavour: whatever the
+\* index is (primary key, unique), whether column a is a primary key, whichever way the reference points, the same
+\* defect must be refused with the same error.  Every history is executed in several flavours of the universe.
+Flavours == [ipk : BOOLEAN, iunique : BOOLEAN, apk : BOOLEAN, rtype : {">", "<", "-"}]
+Plain == [ipk |-> FALSE, iunique |-> FALSE, apk |-> FALSE, rtype |-> ">"]
+
 VARIABLES st, hist
 Init == st = Clean /\ hist = <<>>
 Next == /\ Len(hist) < MaxSteps
